@@ -111,3 +111,48 @@ package parser
 //@ requires p != nil
 //@ invariant 1: true
 //@ ensures[C03.typednil] result == nil || ref(result) != nil
+
+// ---- C01: operator precedence (binding powers) and the Pratt loop ---------------------------------------------
+//@ spec prec(t) = precedences[t]
+//@ spec hasprec(t) = haskey(precedences, t)
+// The ordering the language documents: ** > * / > + - > comparisons > == != > && || > |, call and index bind
+// tightest; equal powers associate to the left (strict '<' in the Pratt loop).
+//@ spec precOK() = hasprec("*") && hasprec("/") && hasprec("+") && hasprec("-") && hasprec("<") && hasprec("<=") && hasprec(">") && hasprec(">=") && hasprec("==") && hasprec("!=") && hasprec("&&") && hasprec("||") && hasprec("|") && hasprec("**") && hasprec("%") && hasprec("(") && hasprec("[") && hasprec(".") && prec("*") == prec("/") && prec("+") == prec("-") && prec("<") == prec("<=") && prec("<") == prec(">") && prec("<") == prec(">=") && prec("==") == prec("!=") && prec("&&") == prec("||") && prec("**") > prec("*") && prec("*") > prec("+") && prec("+") > prec("<") && prec("<") > prec("==") && prec("==") > prec("&&") && prec("&&") > prec("|") && prec("|") > LOWEST && prec("(") > prec("**") && prec("[") > prec("(") && prec(".") == prec("[") && prec("%") > prec("*")
+
+//@ axiom precedencesOK: precOK()
+
+//@ func init
+//@ props C01
+//@ ensures[C01.precedence.table] precOK()
+
+//@ func (*Parser).peekPrecedence
+//@ props C01
+//@ requires p != nil
+//@ modifies nothing
+//@ ensures[C01.prec.peek] result == ite(hasprec(p.peekToken.Type), prec(p.peekToken.Type), LOWEST)
+
+//@ func (*Parser).currentPrecedence
+//@ props C01
+//@ requires p != nil
+//@ modifies nothing
+//@ ensures[C01.prec.cur] result == ite(hasprec(p.curToken.Type), prec(p.curToken.Type), LOWEST)
+
+// parseExpression is reached through function values inside parseNode; its ghost result records the binding
+// power it was asked to parse at.
+//@ func (*Parser).parseExpression
+//@ trusted
+//@ modcomps H_ E_ MD_ MV_ G_ C_
+//@ ghostensures result != nil ==> uf("parsedAt", int, result) == precedence
+
+// An infix operator parses its right operand at exactly its own binding power (so equal powers associate to the
+// left) and builds Infix(left, operator literal, right) in that order.
+//@ func (*Parser).parseInfixExpr
+//@ props C01
+//@ requires p != nil
+//@ nocontract nextToken setTokenError
+//@ invariant 1: precedence == ite(old(hasprec(p.curToken.Type)), old(prec(p.curToken.Type)), LOWEST) && firstToken == old(p.curToken) && left == leftNode.(ast.Expression) && implements(leftNode, ast.Expression)
+//@ ensures[C01.infix.type] result != nil ==> typeof(result) == *ast.Infix
+//@ ensures[C01.infix.left] result != nil ==> result.(*ast.Infix).left == leftNode.(ast.Expression)
+//@ ensures[C01.infix.op] result != nil ==> result.(*ast.Infix).operator == old(p.curToken.Literal)
+//@ ensures[C01.infix.right] result != nil ==> result.(*ast.Infix).right != nil
+//@ ensures[C01.infix.power] result != nil ==> uf("parsedAt", int, result.(*ast.Infix).right) == ite(old(hasprec(p.curToken.Type)), old(prec(p.curToken.Type)), LOWEST)
